@@ -75,8 +75,40 @@ def restartStep (pStep pNext step sk : Nat) (later : List Nat) : List Bool × Na
   let a := armStep pStep pNext step sk
   runStep a.1 a.2 (sk :: later)
 
+/-! ### repaired heartbeat (`fixes/C06-cadence-skip-passed-output-times.diff`)
+  `next += sign*interval; if (sign*next <= sign*t && interval>0.){ passed = floor(sign*(t-next)/interval)+1.;
+   next += sign*passed*interval; if (sign*next <= sign*t) next += sign*interval; }` -/
+structure OpsR (α : Type) extends Ops α where
+  lt : α → α → Bool
+  zero : α
+  /-- `floor(sign*(t-next)/interval) + 1` -/
+  passed : α → α → α → α → α
+
+def hbR {α : Type} (o : OpsR α) (sign interval next t : α) : Bool × α :=
+  if o.le (o.mul sign next) (o.mul sign t) then
+    let n1 := o.add next (o.mul sign interval)
+    if o.le (o.mul sign n1) (o.mul sign t) && o.lt o.zero interval then
+      let n2 := o.add n1 (o.mul (o.mul sign (o.passed sign t n1 interval)) interval)
+      (true, if o.le (o.mul sign n2) (o.mul sign t) then o.add n2 (o.mul sign interval) else n2)
+    else (true, n1)
+  else (false, next)
+
+def runR {α : Type} (o : OpsR α) (sign interval : α) : α → List α → List Bool × α
+  | next, [] => ([], next)
+  | next, t :: r =>
+    let h := hbR o sign interval next t
+    let rest := runR o sign interval h.2 r
+    (h.1 :: rest.1, rest.2)
+
+def restartR {α : Type} (o : OpsR α) (ne : α → α → Bool) (sign pInt pNext interval tk : α) (later : List α) : List Bool × α :=
+  let a := arm ne pInt pNext interval tk
+  runR o sign a.1 a.2 (tk :: later)
+
 def intOps : Ops Int := ⟨fun a b => decide (a ≤ b), (· + ·), (· * ·)⟩
 def floatOps : Ops Float := ⟨fun a b => a ≤ b, (· + ·), (· * ·)⟩
+def intOpsR : OpsR Int := { intOps with lt := fun a b => decide (a < b), zero := 0, passed := fun s t n d => (s * (t - n)) / d + 1 }
+def floatOpsR : OpsR Float :=
+  { floatOps with lt := fun a b => a < b, zero := 0.0, passed := fun s t n d => Float.floor (s * (t - n) / d) + 1.0 }
 
 /-- capacity of `sa->t` / `sa->offset` at the start of loop iteration `i`: 1024 at first, enlarged by 1024 at
     the end of the iteration in which `i == nblobsmax-1` -/
